@@ -552,8 +552,10 @@ impl Process {
     /// process.
     #[must_use = "send SIGCHLD if process state has changed"]
     pub fn raise_signal(&mut self, signal: signal::Number) -> SignalResult {
-        let process_state_changed =
-            signal == signal::SIGCONT && self.set_state(ProcessState::Running);
+        // SIGCONT resumes a stopped process. (It must not revive a terminated one.)
+        let process_state_changed = signal == signal::SIGCONT
+            && self.state.is_stopped()
+            && self.set_state(ProcessState::Running);
 
         let mut result = if signal != signal::SIGKILL
             && signal != signal::SIGSTOP
